@@ -63,6 +63,37 @@ def _is_docstring(st):
       isinstance(st.value.value, str)
 
 
+def _is_cm(fn):
+  return any((isinstance(d, ast.Attribute) and d.attr == 'contextmanager') or
+             (isinstance(d, ast.Name) and d.id == 'contextmanager')
+             for d in fn.decorator_list)
+
+
+def _cm_ok(fn):
+  """A @contextmanager helper with exactly one `yield` statement that is not
+  inside a loop: `with helper(): BODY` is its body with BODY at the yield."""
+  a = fn.args
+  if a.vararg or a.kwarg or a.posonlyargs or len(fn.decorator_list) != 1:
+    return False
+  if not fn.name.startswith('_') or fn.name.startswith('__'):
+    return False
+  ys = [n for n in ast.walk(fn) if isinstance(n, (ast.Yield, ast.YieldFrom))]
+  if len(ys) != 1 or isinstance(ys[0], ast.YieldFrom):
+    return False
+  for n in ast.walk(fn):
+    if n is fn:
+      continue
+    if isinstance(n, (ast.FunctionDef, ast.AsyncFunctionDef, ast.ClassDef,
+                      ast.Await, ast.Global, ast.Nonlocal, ast.Return)):
+      return False
+    if isinstance(n, (ast.For, ast.While)) and any(
+        x is ys[0] for x in ast.walk(n)):
+      return False
+  # the yield must be a statement of its own
+  return any(isinstance(s, ast.Expr) and s.value is ys[0]
+             for s in ast.walk(fn) if isinstance(s, ast.stmt))
+
+
 def _callee_ok(fn, private_only=True):
   a = fn.args
   if a.vararg or a.kwarg or a.posonlyargs:
@@ -397,8 +428,9 @@ class Inliner(object):
           return None  # another class of the module defines it too
         q = '%s.%s' % (cls_name, f.attr)
         k = _kind(fn)
-        if recv == 'self' and not (caller.args.args and
-                                   caller.args.args[0].arg == 'self'):
+        if recv == 'self' and not (
+            (caller.args.args and caller.args.args[0].arg == 'self') or
+            getattr(caller, '_outer_self', False)):
           return None
         if recv == 'cls' and k == 'instance':
           return None
@@ -422,6 +454,8 @@ class Inliner(object):
   def inlinable(self, fn, qual):
     if (self.relpath, qual) in self.anchors:
       return False
+    if _is_cm(fn):
+      return False  # only through expand_with
     if qual.startswith('<local>.'):
       return _callee_ok(fn, private_only=False) and not fn.decorator_list
     if not _callee_ok(fn):
@@ -548,6 +582,55 @@ class Inliner(object):
     return prefix + new, ast.copy_location(ast.Name(id=ret, ctx=ast.Load()),
                                            call)
 
+  def expand_with(self, st, call, fn, kind, recv, caller_names):
+    """`with helper(args) [as v]: BODY` -> the helper's body with BODY in
+    place of its `yield` (and `v = <yielded value>` in front of BODY)."""
+    saved = fn.decorator_list
+    fn.decorator_list = []
+    try:
+      # reuse the parameter binding / renaming of expand(): treat the yield as
+      # an ordinary expression statement for now
+      marker = '__with_body_marker__'
+      body = _fast_copy([s for s in fn.body if not _is_docstring(s)])
+      ys = [n for s in body for n in ast.walk(s) if isinstance(n, ast.Yield)]
+      yv = ys[0].value
+      probe = ast.FunctionDef(name=fn.name, args=fn.args, body=body,
+                              decorator_list=[], returns=None)
+      for s in ast.walk(probe):
+        if isinstance(s, ast.Expr) and s.value is ys[0]:
+          s.value = ast.Call(func=ast.Name(id=marker, ctx=ast.Load()),
+                             args=[yv] if yv is not None else [], keywords=[])
+      pre, _ = self.expand(call, probe, kind, recv, caller_names, 'stmt')
+    finally:
+      fn.decorator_list = saved
+    var = st.items[0].optional_vars
+    done = []
+
+    def splice(stmts):
+      out = []
+      for s in stmts:
+        if isinstance(s, ast.Expr) and isinstance(s.value, ast.Call) and \
+            isinstance(s.value.func, ast.Name) and s.value.func.id == marker:
+          if var is not None:
+            val = s.value.args[0] if s.value.args else ast.Constant(value=None)
+            out.append(ast.copy_location(ast.Assign(targets=[var], value=val),
+                                         st))
+          out.extend(st.body)
+          done.append(1)
+          continue
+        for field in ('body', 'orelse', 'finalbody'):
+          b = getattr(s, field, None)
+          if isinstance(b, list) and b and isinstance(b[0], ast.stmt):
+            setattr(s, field, splice(b))
+        for h in getattr(s, 'handlers', None) or []:
+          h.body = splice(h.body)
+        out.append(s)
+      return out
+    new = splice(pre)
+    if len(done) != 1:
+      raise NotInlinable('yield not found after expansion')
+    return new
+
   # -- a whole function
   def process_function(self, caller, cls_name, qual):
     caller_names = _all_names(caller)
@@ -584,6 +667,32 @@ class Inliner(object):
       while i < len(blk):
         st = blk[i]
         changed = False
+        if depth < MAX_DEPTH and isinstance(st, ast.With) and \
+            len(st.items) == 1 and isinstance(st.items[0].context_expr,
+                                              ast.Call):
+          call = st.items[0].context_expr
+          r = self.resolve(call, cls_name, caller)
+          if r is not None and _is_cm(r[0]) and _cm_ok(r[0]) and \
+              (self.relpath, r[1]) not in self.anchors and r[1] not in active \
+              and not self.foreign_text('def %s(' % r[0].name):
+            fn, q, kind, recv = r
+            try:
+              new = self.expand_with(st, call, fn, kind, recv, caller_names)
+            except NotInlinable as ex:
+              self.log.append('%s: %s not inlined into %s (%s)' % (
+                  self.relpath, q, qual, ex))
+              new = None
+            if new is not None:
+              blk[i:i + 1] = new
+              self.inlined_calls[id(fn)] = self.inlined_calls.get(
+                  id(fn), 0) + 1
+              self.log.append('%s: %s inlined into %s (with)' % (
+                  self.relpath, q, qual))
+              sub_blk = blk[i:i + len(new)]
+              do_block(sub_blk, active | {q}, depth + 1)
+              blk[i:i + len(new)] = sub_blk
+              i += len(sub_blk)
+              continue
         if depth < MAX_DEPTH and not isinstance(
             st, (ast.FunctionDef, ast.AsyncFunctionDef, ast.ClassDef)):
           cands = []
@@ -664,6 +773,14 @@ class Inliner(object):
         for x in st.body:
           if isinstance(x, ast.FunctionDef):
             self.process_function(x, st.name, '%s.%s' % (st.name, x.name))
+            # closures defined in the method see its `self`
+            has_self = bool(x.args.args and x.args.args[0].arg == 'self')
+            for y in ast.walk(x):
+              if isinstance(y, ast.FunctionDef) and y is not x and not any(
+                  a.arg == 'self' for a in y.args.args):
+                y._outer_self = has_self  # pylint: disable=protected-access
+                self.process_function(
+                    y, st.name, '%s.%s.%s' % (st.name, x.name, y.name))
     self.drop_dead_helpers()
     return self.tree
 
